@@ -26,6 +26,24 @@ type gen struct {
 	hbChanged int64
 	hbAny     bool
 	leader    int // the leader the clientSets knows for the cluster's shard (0: none)
+	nextID    int
+	issued    []int
+}
+
+func (g *gen) acquire() Op {
+	g.nextID++
+	g.issued = append(g.issued, g.nextID)
+	return Op{Op: "acquire", ID: g.nextID}
+}
+
+func (g *gen) release() Op {
+	if len(g.issued) == 0 {
+		return Op{Op: "release", ID: 1 + g.n(3)}
+	}
+	k := g.n(len(g.issued))
+	id := g.issued[k]
+	g.issued = append(g.issued[:k], g.issued[k+1:]...)
+	return Op{Op: "release", ID: id}
 }
 
 // tickOp: one round of the counter manager; the server answers the request (if one is sent) with accept mostly
@@ -289,7 +307,78 @@ func genScenario(c *rig.Ctx, i int) Case {
 	errReply := func() Op {
 		return fresh(Op{Op: "setlimit", Err: rig.Pick(g.c.Rng, []string{"timeout", "limiter server unavailable"}), Accept: g.n(2) == 0, Limit: g.limit()})
 	}
-	switch g.n(6) {
+	switch g.n(9) {
+	case 6, 7: // requests in flight across a change of the global limit (resize in place must keep counting them)
+		g.kindMI = true
+		strat := rig.Pick(g.c.Rng, []string{"globalCount", "globalCount", "globalAllocate"})
+		ops = append(ops, sch(strat))
+		ready()
+		sync := func() {
+			if strat == "globalCount" {
+				ops = append(ops, Op{Op: "reconcile"})
+				// the server grants (up to) the whole limit
+				maybe(85, func() {
+					ops = append(ops, fresh(Op{Op: "setlimit", Accept: true, Limit: rig.Pick(g.c.Rng, []int64{maxI32, *g.cur.GMI, g.limit()})}))
+				})
+			} else {
+				it := &Item{Strategy: strat, MI: p64(rig.Pick(g.c.Rng, []int64{maxI32, *g.cur.GMI, g.limit()}))}
+				ops = append(ops, Op{Op: "answer", Named: true, Item: it})
+			}
+		}
+		sync()
+		for k := 0; k < 2+g.n(14); k++ {
+			ops = append(ops, g.acquire())
+		}
+		maybe(40, func() { ops = append(ops, g.release()) })
+		for r := 0; r < 1+g.n(3); r++ {
+			// the limit changes (any other value), the strategy does not
+			s := g.schema(true)
+			s.Strategy = strat
+			if g.n(2) == 0 {
+				s.MI = g.cur.MI
+				if *s.GMI < *s.MI {
+					s.GMI = s.MI
+				}
+			}
+			g.cur = s
+			note(s)
+			ops = append(ops, Op{Op: "schema", Schema: &s})
+			sync()
+			for k := 0; k < 1+g.n(6); k++ {
+				ops = append(ops, g.acquire())
+			}
+			maybe(50, func() { ops = append(ops, g.release(), g.acquire()) })
+			maybe(20, func() { ops = append(ops, errReply()) })
+		}
+	case 8: // failed acquire requests that carried tokens, then recovery: the tokens must not stay accounted
+		g.kindMI = false
+		s := g.schema(false)
+		s.Strategy = "globalCount"
+		gq := rig.Pick(g.c.Rng, []int64{20, 39, 45, 60, 100})
+		s.TB, s.GTB = &[2]int64{1, 5}, &[2]int64{gq, gq + 100}
+		g.cur = s
+		ops = append(ops, Op{Op: "schema", Schema: &s})
+		ready()
+		ops = append(ops, Op{Op: "reconcile"})
+		for k := 0; k < 2+g.n(5); k++ {
+			ops = append(ops, Op{Op: "event"})
+			op := g.tickOp(0)
+			op.Ans = &TickAns{Err: rig.Pick(g.c.Rng, []string{"timeout", "limiter server unavailable"})}
+			ops = append(ops, op)
+		}
+		// the server is back; it grants nothing at first, so the reserve stays empty and there is room to ask
+		for k := 0; k < 2+g.n(3); k++ {
+			maybe(60, func() { ops = append(ops, Op{Op: "event"}) })
+			op := g.tickOp(100)
+			op.Ans = &TickAns{Accept: true, Limit: rig.Pick(g.c.Rng, []int64{0, 0, -1, 1})}
+			ops = append(ops, op)
+		}
+		for k := 0; k < 2+g.n(3); k++ {
+			ops = append(ops, Op{Op: "event"})
+			op := g.tickOp(100)
+			op.Ans = &TickAns{Accept: true, Limit: rig.Pick(g.c.Rng, []int64{0, 1, 1000})}
+			ops = append(ops, op)
+		}
 	case 4, 5: // global count, request side: the counter manager's rounds — fill, fail while idle, recover
 		ops = append(ops, sch("globalCount"))
 		ready()
@@ -492,6 +581,14 @@ func genCase(c *rig.Ctx, i int) Case {
 		}
 		if g.n(100) < 5 {
 			ops = append(ops, Op{Op: "event"})
+		}
+		if g.kindMI {
+			for k := g.n(100); k < 30; k += 12 {
+				ops = append(ops, g.acquire())
+			}
+			if g.n(100) < 10 {
+				ops = append(ops, g.release())
+			}
 		}
 	}
 	cs.Ops = ops
